@@ -1279,6 +1279,7 @@ def cmdOK (o : Object) (c : Cmd) : Bool :=
   match findSlot c.pv o.props, findSlot c.pa o.props, findSlot c.rd o.props with
   | some pv, some pa, some rd =>
     pv.d.custom == .std && pv.d.mutable && pa.d.custom == .std && !pa.d.mutable && pa.d.dt.isArray &&
+    rd.d.custom == .std && rd.d.dt == pv.d.dt &&
     match pv.d.dt, pa.v, rd.v with
     | .scalar e, .arr slots, .one rit =>
         slots.length == 16 && elemValid e e rit &&
@@ -1293,7 +1294,7 @@ theorem cmdOK_elim (o : Object) (c : Cmd) (h : cmdOK o c = true) :
       findSlot c.pv o.props = some pv ∧ findSlot c.pa o.props = some pa ∧
       findSlot c.rd o.props = some rd ∧
       pv.d.custom = .std ∧ pv.d.mutable = true ∧ pa.d.custom = .std ∧ pa.d.mutable = false ∧
-      pa.d.dt.isArray = true ∧
+      pa.d.dt.isArray = true ∧ rd.d.custom = .std ∧ rd.d.dt = pv.d.dt ∧
       pv.d.dt = .scalar e ∧ pa.v = .arr slots ∧ rd.v = .one rit ∧ slots.length = 16 ∧
       elemValid e e rit = true ∧
       (∀ it ∈ slots, it = .enc [nullTag] ∨ elemValid e e it = true) := by
@@ -1304,12 +1305,12 @@ theorem cmdOK_elim (o : Object) (c : Cmd) (h : cmdOK o c = true) :
   split at h4
   · rename_i pv pa rd hpv hpa hrd
     simp only [Bool.and_eq_true, beq_iff_eq, Bool.not_eq_true'] at h4
-    obtain ⟨⟨⟨⟨⟨a1, a2⟩, a3⟩, a4⟩, a5⟩, a6⟩ := h4
+    obtain ⟨⟨⟨⟨⟨⟨⟨a1, a2⟩, a3⟩, a4⟩, a5⟩, a7⟩, a8⟩, a6⟩ := h4
     split at a6
     · rename_i e slots rit hdt hpav hrdv
       simp only [Bool.and_eq_true, beq_iff_eq, List.all_eq_true, Bool.or_eq_true] at a6
       obtain ⟨⟨b1, b2⟩, b3⟩ := a6
-      exact ⟨pv, pa, rd, e, slots, rit, hpv, hpa, hrd, a1, a2, a3, a4, a5, hdt, hpav, hrdv, b1, b2, b3⟩
+      exact ⟨pv, pa, rd, e, slots, rit, hpv, hpa, hrd, a1, a2, a3, a4, a5, a7, a8, hdt, hpav, hrdv, b1, b2, b3⟩
     · simp at a6
   · simp at h4
 
@@ -1332,7 +1333,7 @@ theorem highest_valid (e : ElemTy) (slots : List Item) (rit : Item)
     `Commandable.WriteProperty` cannot refuse -/
 theorem cmdSettle_ok (d : Device) (o1 : Object) (c : Cmd) (h : cmdOK o1 c = true) :
     (cmdSettle d o1 c).2 = .ok () := by
-  obtain ⟨_, _, _, pv, pa, rd, e, slots, rit, hpv, hpa, hrd, hcu, hmut, _, _, _, hdt, hpav, hrdv, _, hr, hs⟩ :=
+  obtain ⟨_, _, _, pv, pa, rd, e, slots, rit, hpv, hpa, hrd, hcu, hmut, _, _, _, _, _, hdt, hpav, hrdv, _, hr, hs⟩ :=
     cmdOK_elim o1 c h
   obtain ⟨hit, hhi, hval⟩ := highest_valid e slots rit hr hs
   unfold cmdSettle
@@ -1352,8 +1353,8 @@ theorem cmdOK_setSlot (o : Object) (c : Cmd) (h : cmdOK o c = true)
     (hpv : findSlot c.pv o.props = some pv) (hdt : pv.d.dt = .scalar e)
     (k : Nat) (it : Item) (hit : it = .enc [nullTag] ∨ elemValid e e it = true) :
     cmdOK { o with props := setSlot c.pa (.arr (slots.set k it)) o.props } c = true := by
-  obtain ⟨n1, n2, n3, pv', pa', rd, e', slots', rit, hpv', hpa', hrd, hcu, hmut, hcu2, hmut2, harr, hdt',
-    hpav', hrdv, hlen, hr, hs⟩ := cmdOK_elim o c h
+  obtain ⟨n1, n2, n3, pv', pa', rd, e', slots', rit, hpv', hpa', hrd, hcu, hmut, hcu2, hmut2, harr, hcu3, hdt3,
+    hdt', hpav', hrdv, hlen, hr, hs⟩ := cmdOK_elim o c h
   rw [hpv] at hpv'; simp only [Option.some.injEq] at hpv'; subst hpv'
   rw [hpa] at hpa'; simp only [Option.some.injEq] at hpa'; subst hpa'
   rw [hdt] at hdt'; simp only [DT.scalar.injEq] at hdt'; subst hdt'
@@ -1368,7 +1369,7 @@ theorem cmdOK_setSlot (o : Object) (c : Cmd) (h : cmdOK o c = true)
   simp only [f1, f2, f3, hdt, hrdv]
   simp only [Bool.and_eq_true, bne_iff_ne, ne_eq, beq_iff_eq, Bool.not_eq_true', List.all_eq_true,
     Bool.or_eq_true, List.length_set]
-  refine ⟨⟨⟨n1, n2⟩, n3⟩, ⟨⟨⟨⟨hcu, hmut⟩, hcu2⟩, hmut2⟩, harr⟩, ⟨hlen, hr⟩, ?_⟩
+  refine ⟨⟨⟨n1, n2⟩, n3⟩, ⟨⟨⟨⟨⟨⟨hcu, hmut⟩, hcu2⟩, hmut2⟩, harr⟩, hcu3⟩, by rw [hdt3, hdt]⟩, ⟨hlen, hr⟩, ?_⟩
   intro x hx
   rcases List.mem_or_eq_of_mem_set hx with hx | hx
   · exact hs x hx
@@ -1385,7 +1386,7 @@ theorem objWritePlain_pure (d : Device) (o : Object) (pid : Nat) (v : WVal) (idx
 theorem cmdSlotWrite_pure (d : Device) (o : Object) (c : Cmd) (v : WVal) (i : Int) (e : Refusal)
     (hok : cmdOK o c = true) (h : (cmdSlotWrite d o c v i).2 = .error e) :
     (cmdSlotWrite d o c v i).1 = o := by
-  obtain ⟨n1, n2, n3, pv, pa, rd, el, slots, rit, hpv, hpa, hrd, hcu, hmut, hcu2, hmut2, harr, hdt,
+  obtain ⟨n1, n2, n3, pv, pa, rd, el, slots, rit, hpv, hpa, hrd, hcu, hmut, hcu2, hmut2, harr, hcu3, hdt3, hdt,
     hpav, hrdv, hlen, hr, hs⟩ := cmdOK_elim o c hok
   unfold cmdSlotWrite at h ⊢
   by_cases hi0 : i = 0
@@ -1413,7 +1414,7 @@ theorem cmdSlotWrite_pure (d : Device) (o : Object) (c : Cmd) (v : WVal) (i : In
 
 theorem cmdWholeWrite_pure (d : Device) (o : Object) (c : Cmd) (v : WVal)
     (hok : cmdOK o c = true) : cmdWholeWrite d o c v = (o, .error .writeAccessDenied) := by
-  obtain ⟨n1, n2, n3, pv, pa, rd, el, slots, rit, hpv, hpa, hrd, hcu, hmut, hcu2, hmut2, harr, hdt,
+  obtain ⟨n1, n2, n3, pv, pa, rd, el, slots, rit, hpv, hpa, hrd, hcu, hmut, hcu2, hmut2, harr, hcu3, hdt3, hdt,
     hpav, hrdv, hlen, hr, hs⟩ := cmdOK_elim o c hok
   have hden : objWritePlain d o c.pa v none = (o, .error .writeAccessDenied) := by
     have : propWrite d o pa v none = .error .writeAccessDenied := by
@@ -1501,5 +1502,435 @@ theorem refused_write_pure_all (d : Device) (r : WriteReq) (e : Refusal)
                   simpa [hcmd] using this
                 exact objWriteCmd_pure d o c _ v _ _ e this href
             simp [hpure, setObj_self _ _ _ hobj]
+
+
+/-! ### the consistency of commandable objects is an invariant of the device -/
+
+/-- `cmdOK` only looks at the three properties of the mix-in -/
+theorem cmdOK_congr (o : Object) (c : Cmd) (props' : List Slot)
+    (h1 : findSlot c.pv props' = findSlot c.pv o.props)
+    (h2 : findSlot c.pa props' = findSlot c.pa o.props)
+    (h3 : findSlot c.rd props' = findSlot c.rd o.props) :
+    cmdOK { o with props := props' } c = cmdOK o c := by
+  unfold cmdOK
+  simp only [h1, h2, h3]
+
+/-- storing a new presentValue keeps the object consistent -/
+theorem cmdOK_setPv (o : Object) (c : Cmd) (h : cmdOK o c = true) (nv : PVal) :
+    cmdOK { o with props := setSlot c.pv nv o.props } c = true := by
+  obtain ⟨n1, n2, n3, pv, pa, rd, e, slots, rit, hpv, hpa, hrd, _⟩ := cmdOK_elim o c h
+  have f1 : findSlot c.pv (setSlot c.pv nv o.props) = some { pv with v := nv } :=
+    findSlot_setSlot _ _ _ _ hpv
+  have f2 : findSlot c.pa (setSlot c.pv nv o.props) = some pa := by
+    rw [findSlot_setSlot_ne _ _ _ _ n1]; exact hpa
+  have f3 : findSlot c.rd (setSlot c.pv nv o.props) = some rd := by
+    rw [findSlot_setSlot_ne _ _ _ _ n2]; exact hrd
+  unfold cmdOK at h ⊢
+  simp only [f1, f2, f3]
+  simp only [hpv, hpa, hrd] at h
+  exact h
+
+theorem cmdSettle_preserves (d : Device) (o1 : Object) (c : Cmd) (h : cmdOK o1 c = true) :
+    cmdOK (cmdSettle d o1 c).1 c = true := by
+  obtain ⟨_, _, _, pv, pa, rd, e, slots, rit, hpv, hpa, hrd, hcu, hmut, _, _, _, _, _, hdt, hpav, hrdv, _, hr, hs⟩ :=
+    cmdOK_elim o1 c h
+  obtain ⟨hit, hhi, hval⟩ := highest_valid e slots rit hr hs
+  unfold cmdSettle
+  simp only [hpa, hpv, hrd, hpav, hrdv, hhi]
+  split
+  · exact h
+  · simp only [hdt]
+    have hw : propWrite d o1 pv (.one e hit) none = .ok (some (.one hit)) := by
+      simp [propWrite, hcu, stdWrite, hmut, ladder, hdt, hval, assign, Except.map]
+    simp only [objWritePlain, hpv, hw]
+    exact cmdOK_setPv o1 c h _
+
+theorem cmdSlotWrite_preserves (d : Device) (o : Object) (c : Cmd) (v : WVal) (i : Int)
+    (hok : cmdOK o c = true) : cmdOK (cmdSlotWrite d o c v i).1 c = true := by
+  obtain ⟨n1, n2, n3, pv, pa, rd, el, slots, rit, hpv, hpa, hrd, hcu, hmut, hcu2, hmut2, harr, hcu3, hdt3, hdt,
+    hpav, hrdv, hlen, hr, hs⟩ := cmdOK_elim o c hok
+  unfold cmdSlotWrite
+  by_cases hi0 : i = 0
+  · simp [hi0, hok]
+  · by_cases hir : i < 1 ∨ i > 16
+    · simp [hi0, hir, hok]
+    · simp only [hi0, hir, ↓reduceIte, hpa, hpv, hpav]
+      cases v with
+      | null =>
+        simp only
+        exact cmdSettle_preserves d _ c
+          (cmdOK_setSlot o c hok pa slots pv el hpa hpav hpv hdt (i.toNat - 1) (.enc [nullTag]) (Or.inl rfl))
+      | many e' its => simp [hok]
+      | one e' it =>
+        simp only [hdt]
+        by_cases hv : elemValid el e' it = true
+        · simp only [hv, ↓reduceIte]
+          exact cmdSettle_preserves d _ c
+            (cmdOK_setSlot o c hok pa slots pv el hpa hpav hpv hdt (i.toNat - 1) it
+              (Or.inr (elemValid_self _ _ _ hv)))
+        · simp [hv, hok]
+
+/-- a successful `Property.WriteProperty` on a scalar property stores a valid value -/
+theorem stdWrite_scalar_valid (s : Slot) (e : ElemTy) (v : WVal) (idx : Option Nat) (nv : PVal)
+    (hdt : s.d.dt = .scalar e) (h : stdWrite s v idx = .ok nv) :
+    ∃ it, nv = .one it ∧ elemValid e e it = true := by
+  unfold stdWrite at h
+  split at h
+  · simp at h
+  split at h
+  · simp at h
+  rename_i hlad
+  unfold assign at h
+  cases idx with
+  | some i => simp [hdt] at h
+  | none =>
+    simp only [hdt] at h hlad
+    unfold ladder at hlad
+    simp only [reduceCtorEq, ↓reduceIte] at hlad
+    cases v with
+    | null => simp at hlad
+    | many e' its => simp at hlad
+    | one e' it =>
+      simp only at hlad h
+      split at hlad
+      · rename_i hv
+        simp at h
+        exact ⟨it, h.symm, elemValid_self _ _ _ hv⟩
+      · simp at hlad
+
+theorem objWritePlain_preserves (d : Device) (o : Object) (c : Cmd) (pid : Nat) (v : WVal)
+    (idx : Option Nat) (hok : cmdOK o c = true) (hpv : pid ≠ c.pv) (hpa : pid ≠ c.pa) :
+    cmdOK (objWritePlain d o pid v idx).1 c = true := by
+  obtain ⟨n1, n2, n3, pv, pa, rd, el, slots, rit, hfpv, hfpa, hfrd, hcu, hmut, hcu2, hmut2, harr, hcu3, hdt3, hdt,
+    hpav, hrdv, hlen, hr, hs⟩ := cmdOK_elim o c hok
+  rcases objWritePlain_cases d o pid v idx with ⟨e', he⟩ | ⟨s, hs', hcase⟩
+  · rw [he]; exact hok
+  · rcases hcase with ⟨_, hobjw⟩ | ⟨nv, hpw, hobjw⟩
+    · rw [hobjw]; exact hok
+    · rw [hobjw]
+      simp only
+      by_cases hrd : pid = c.rd
+      · -- relinquishDefault: the stored value is valid for the datatype
+        subst hrd
+        rw [hfrd] at hs'; simp only [Option.some.injEq] at hs'; subst hs'
+        have hw' : stdWrite rd v idx = .ok nv := by
+          cases hx : stdWrite rd v idx with
+          | error r => simp [propWrite, hcu3, hx, Except.map] at hpw
+          | ok nv' => simp [propWrite, hcu3, hx, Except.map] at hpw; rw [hpw]
+        obtain ⟨it, hnv, hval⟩ := stdWrite_scalar_valid rd el v idx nv (by rw [hdt3, hdt]) hw'
+        subst hnv
+        have f1 : findSlot c.pv (setSlot c.rd (.one it) o.props) = some pv := by
+          rw [findSlot_setSlot_ne _ _ _ _ (fun h' => n2 h'.symm)]; exact hfpv
+        have f2 : findSlot c.pa (setSlot c.rd (.one it) o.props) = some pa := by
+          rw [findSlot_setSlot_ne _ _ _ _ n3]; exact hfpa
+        have f3 : findSlot c.rd (setSlot c.rd (.one it) o.props) = some { rd with v := .one it } :=
+          findSlot_setSlot _ _ _ _ hfrd
+        unfold cmdOK
+        simp only [f1, f2, f3, hdt, hpav]
+        simp only [Bool.and_eq_true, bne_iff_ne, ne_eq, beq_iff_eq, Bool.not_eq_true', List.all_eq_true,
+          Bool.or_eq_true]
+        exact ⟨⟨⟨n1, n2⟩, n3⟩, ⟨⟨⟨⟨⟨⟨hcu, hmut⟩, hcu2⟩, hmut2⟩, harr⟩, hcu3⟩, by rw [hdt3, hdt]⟩,
+          ⟨hlen, hval⟩, hs⟩
+      · rw [cmdOK_congr o c _ (findSlot_setSlot_ne _ _ _ _ (fun h' => hpv h'.symm))
+          (findSlot_setSlot_ne _ _ _ _ (fun h' => hpa h'.symm))
+          (findSlot_setSlot_ne _ _ _ _ (fun h' => hrd h'.symm))]
+        exact hok
+
+theorem objWriteCmd_preserves (d : Device) (o : Object) (c : Cmd) (pid : Nat) (v : WVal)
+    (idx : Option Nat) (prio : Option Int) (hok : cmdOK o c = true) :
+    cmdOK (objWriteCmd d o c pid v idx prio).1 c = true := by
+  unfold objWriteCmd
+  by_cases hpv : pid = c.pv
+  · simp only [hpv, ↓reduceIte]
+    exact cmdSlotWrite_preserves d o c v _ hok
+  · by_cases hpa : pid = c.pa
+    · subst hpa
+      simp only [hpv, ↓reduceIte]
+      cases idx with
+      | none => simp [cmdWholeWrite_pure d o c v hok, hok]
+      | some i => exact cmdSlotWrite_preserves d o c v _ hok
+    · simp only [hpv, hpa, ↓reduceIte]
+      exact objWritePlain_preserves d o c pid v idx hok hpv hpa
+
+theorem objWritePlain_cmd (d : Device) (o : Object) (pid : Nat) (v : WVal) (idx : Option Nat) :
+    (objWritePlain d o pid v idx).1.cmd = o.cmd := by
+  rcases objWritePlain_cases d o pid v idx with ⟨e', he⟩ | ⟨s, _, hcase⟩
+  · rw [he]
+  · rcases hcase with ⟨_, hobjw⟩ | ⟨nv, _, hobjw⟩ <;> rw [hobjw]
+
+theorem cmdSettle_cmd (d : Device) (o1 : Object) (c : Cmd) : (cmdSettle d o1 c).1.cmd = o1.cmd := by
+  unfold cmdSettle
+  split
+  · split
+    · simp only
+      split
+      · rfl
+      · split
+        · exact objWritePlain_cmd d o1 _ _ _
+        · rfl
+    · rfl
+  · rfl
+
+theorem cmdSlotWrite_cmd (d : Device) (o : Object) (c : Cmd) (v : WVal) (i : Int) :
+    (cmdSlotWrite d o c v i).1.cmd = o.cmd := by
+  unfold cmdSlotWrite
+  split
+  · rfl
+  · split
+    · rfl
+    · split
+      · split
+        · simp only
+          split
+          · rfl
+          · rw [cmdSettle_cmd]
+        · rfl
+      · rfl
+
+theorem cmdWholeWrite_cmd (d : Device) (o : Object) (c : Cmd) (v : WVal) :
+    (cmdWholeWrite d o c v).1.cmd = o.cmd := by
+  unfold cmdWholeWrite
+  have h := objWritePlain_cmd d o c.pa v none
+  split
+  · rename_i o1 r heq; rw [heq] at h; exact h
+  · rename_i o1 heq; rw [heq] at h; rw [cmdSettle_cmd]; exact h
+
+theorem objWrite_cmd (d : Device) (o : Object) (pid : Nat) (v : WVal) (idx : Option Nat)
+    (prio : Option Int) : (objWrite d o pid v idx prio).1.cmd = o.cmd := by
+  unfold objWrite
+  split
+  · rename_i c _
+    unfold objWriteCmd
+    split
+    · exact cmdSlotWrite_cmd d o c v _
+    · split
+      · split
+        · exact cmdWholeWrite_cmd d o c v
+        · exact cmdSlotWrite_cmd d o c v _
+      · exact objWritePlain_cmd d o pid v idx
+  · exact objWritePlain_cmd d o pid v idx
+
+theorem all_setObj (P : Oid × Object → Bool) (oid : Oid) (o' : Object) :
+    ∀ objs : List (Oid × Object), objs.all P = true → P (oid, o') = true →
+      (setObj oid o' objs).all P = true := by
+  intro objs
+  induction objs with
+  | nil => intro _ _; rfl
+  | cons x rest ih =>
+    obtain ⟨k, x⟩ := x
+    intro h hp
+    simp only [List.all_cons, Bool.and_eq_true] at h
+    unfold setObj
+    split
+    · rename_i hk; subst hk
+      simp only [List.all_cons, Bool.and_eq_true]
+      exact ⟨hp, h.2⟩
+    · simp only [List.all_cons, Bool.and_eq_true]
+      exact ⟨h.1, ih h.2 hp⟩
+
+/-- `deviceOK` is an invariant: whatever the request and whatever the answer,
+    the commandable objects of the device stay consistent.  Together with
+    `refused_write_pure_all` this gives all-or-nothing along every history that
+    starts in a consistent device. -/
+theorem deviceOK_preserved (d : Device) (r : WriteReq) (hdev : deviceOK d = true) :
+    deviceOK (writeService d r).1 = true := by
+  unfold writeService
+  cases hobj : findObj r.oid d.objs with
+  | none => simpa using hdev
+  | some o =>
+    simp only
+    cases hpre : objRead o r.pid r.idx with
+    | error e' => simpa using hdev
+    | ok rv0 =>
+      cases rv0 with
+      | none => simpa using hdev
+      | whole _ | len _ | elem _ =>
+        simp only
+        cases hs : findSlot r.pid o.props with
+        | none => simpa using hdev
+        | some s =>
+          simp only
+          cases hc : castOut s.d.dt r.idx r.value with
+          | error e' => simpa using hdev
+          | ok v =>
+            simp only
+            unfold deviceOK at hdev ⊢
+            apply all_setObj _ _ _ _ hdev
+            simp only [objWrite_cmd]
+            cases hcmd : o.cmd with
+            | none => rfl
+            | some c =>
+              simp only
+              have hmem := findObj_mem _ _ _ hobj
+              have hok : cmdOK o c = true := by
+                have := (List.all_eq_true.mp hdev) _ hmem
+                simpa [hcmd] using this
+              simp only [objWrite, hcmd]
+              exact objWriteCmd_preserves d o c _ v _ _ hok
+
+/-- all-or-nothing along histories: after any sequence of write requests
+    starting in a consistent device, a refused request leaves the device
+    exactly as it was -/
+def runWrites (d : Device) : List WriteReq → Device
+  | [] => d
+  | r :: rest => runWrites (writeService d r).1 rest
+
+theorem deviceOK_runWrites (d : Device) (rs : List WriteReq) (h : deviceOK d = true) :
+    deviceOK (runWrites d rs) = true := by
+  induction rs generalizing d with
+  | nil => exact h
+  | cons r rest ih => exact ih _ (deviceOK_preserved d r h)
+
+theorem refused_write_pure_history (d : Device) (rs : List WriteReq) (r : WriteReq) (e : Refusal)
+    (h : deviceOK d = true) (href : (writeService (runWrites d rs) r).2 = .error e) :
+    (writeService (runWrites d rs) r).1 = runWrites d rs :=
+  refused_write_pure_all _ r e (deviceOK_runWrites d rs h) href
+
+/-! ## the generated registry: well-formedness, discharged by kernel evaluation -/
+
+def idsNodup : List Nat → Bool
+  | [] => true
+  | x :: rest => !rest.contains x && idsNodup rest
+
+def elemOK : ElemTy → Bool
+  | .atomic tag lo (some hi) => tag ≤ 12 && lo ≤ hi
+  | .atomic tag _ none => tag ≤ 12
+  | _ => true
+
+/-- an element `fix_length` appends either encodes or fails in a way that is
+    not an ExecutionError (so it can never be mistaken for an embedded
+    unknown-property / array-index error) -/
+def itemOK : Item → Bool
+  | .unenc r => !r.isExec
+  | .enc _ => true
+
+def propOK (d : PropDesc) : Bool :=
+  (d.custom == .std || d.custom == .objId) &&
+  (match d.dflt with | some it => itemOK it | none => true) &&
+  match d.dt with
+  | .scalar e => elemOK e
+  | .listOf e => elemOK e
+  | .arrayOf e _ dflt => elemOK e && itemOK dflt
+
+def findDesc (pid : Nat) : List PropDesc → Option PropDesc
+  | [] => none
+  | d :: rest => if d.id = pid then some d else findDesc pid rest
+
+/-- what every registered object type must provide (`Object.properties` +
+    `register_object_type`): unique identifiers; objectIdentifier served by
+    ObjectIdentifierProperty, required, read-only; objectName required;
+    objectType required, read-only, defaulting to the type's own number;
+    propertyList an array of property identifiers -/
+def typeOK (t : ObjType) : Bool :=
+  idsNodup (t.props.map (·.id)) && t.props.all propOK &&
+  (match findDesc pidObjectIdentifier t.props with
+   | some p => p.custom == .objId && !p.optional && !p.mutable && p.dt == .scalar (.atomic 12 0 none)
+   | none => false) &&
+  (match findDesc pidObjectName t.props with
+   | some p => !p.optional && p.dt == .scalar (.atomic 7 0 none)
+   | none => false) &&
+  (match findDesc pidObjectType t.props with
+   | some p => p.custom == .std && !p.optional && !p.mutable && p.dt == .scalar (.atomic 9 0 none) &&
+               p.dflt == some (enumItem t.num)
+   | none => false) &&
+  (match findDesc pidPropertyList t.props with
+   | some p => p.dt.isArray
+   | none => false)
+
+def tableOK (ts : List ObjType) : Bool :=
+  idsNodup (ts.map (·.num)) && ts.all typeOK
+
+/-- the table generated from the live registry is well-formed (kernel
+    evaluation over all 63 types / 2274 descriptors; re-run whenever the
+    registry changes) -/
+theorem generated_table_ok : tableOK Gen.Objects.objectTypes = true := by decide +kernel
+
+/-- the registry has the 63 standard object types -/
+theorem generated_table_size : Gen.Objects.objectTypes.length = 63 := by decide +kernel
+
+
+/-! ### consequences of well-formedness, for any table -/
+
+theorem idsNodup_nodup : ∀ (l : List Nat), idsNodup l = true → l.Nodup := by
+  intro l
+  induction l with
+  | nil => intro _; exact List.nodup_nil
+  | cons x rest ih =>
+    intro h
+    simp only [idsNodup, Bool.and_eq_true, Bool.not_eq_true', List.contains_eq_mem,
+      decide_eq_false_iff_not] at h
+    exact List.nodup_cons.mpr ⟨h.1, ih h.2⟩
+
+theorem findSlot_map_initSlot (init : List (Nat × PVal)) (pid : Nat) :
+    ∀ props : List PropDesc,
+      findSlot pid (props.map (initSlot init)) = (findDesc pid props).map (initSlot init) := by
+  intro props
+  induction props with
+  | nil => rfl
+  | cons p rest ih =>
+    have hid : (initSlot init p).d.id = p.id := by
+      unfold initSlot; split <;> (try split) <;> rfl
+    simp only [List.map_cons, findSlot, findDesc, hid]
+    split
+    · rfl
+    · exact ih
+
+theorem findDesc_id (pid : Nat) : ∀ (props : List PropDesc) (p : PropDesc),
+    findDesc pid props = some p → p.id = pid := by
+  intro props
+  induction props with
+  | nil => intro p h; simp [findDesc] at h
+  | cons q rest ih =>
+    intro p h
+    unfold findDesc at h
+    split at h
+    · rename_i hq; simp at h; subst h; exact hq
+    · exact ih p h
+
+/-- every object created from a well-formed registered type answers
+    ReadProperty(objectType) with the number of its own type (the default that
+    `register_object_type` installs and `Object.__init__` applies) -/
+theorem fresh_object_reads_its_type (t : ObjType) (ht : typeOK t = true)
+    (init : List (Nat × PVal)) (hinit : init.find? (fun kv => kv.1 = pidObjectType) = none) :
+    readObject (mkObject t.num t.props none init) pidObjectType none =
+      .ok [appTag 9 (natOctets t.num)] := by
+  unfold typeOK at ht
+  simp only [Bool.and_eq_true] at ht
+  obtain ⟨⟨⟨⟨_, _⟩, _⟩, hty⟩, _⟩ := ht
+  split at hty
+  · rename_i p hp
+    simp only [Bool.and_eq_true, beq_iff_eq, Bool.not_eq_true'] at hty
+    obtain ⟨⟨⟨⟨hcu, _⟩, _⟩, hdt⟩, hdf⟩ := hty
+    have hid : p.id = pidObjectType := findDesc_id _ _ _ hp
+    have hslot : initSlot init p = { d := p, v := .one (enumItem t.num) } := by
+      unfold initSlot
+      rw [hid, hinit]
+      simp [hdf]
+    unfold readObject mkObject
+    simp only [findSlot_map_initSlot, hp, Option.map_some, hslot]
+    simp [propRead, hcu, stdRead, rpEncode, hdt, encItem, enumItem]
+  · simp at hty
+
+theorem sublist_filter_map_ids (props : List Slot) (f : Slot → Bool) :
+    ((props.filter f).map (·.d.id)).Sublist (props.map (·.d.id)) :=
+  List.Sublist.map _ List.filter_sublist
+
+/-- on an object whose property identifiers are unique (true of every object
+    built from a well-formed table, `mkObject_ids`), a selector reports no
+    property twice -/
+theorem selector_nodup (o : Object) (sel : Nat) (idx : Option Nat) (es : List RElem)
+    (hids : idsNodup (o.props.map (·.d.id)) = true)
+    (h : expandSel o sel idx o.props = .ok es) : (es.map (·.pid)).Nodup := by
+  rw [selector_ids o sel idx o.props es h]
+  exact List.Nodup.sublist (sublist_filter_map_ids _ _) (idsNodup_nodup _ hids)
+
+theorem mkObject_ids (ty : Nat) (props : List PropDesc) (cmd : Option Cmd) (init : List (Nat × PVal)) :
+    (mkObject ty props cmd init).props.map (·.d.id) = props.map (·.id) := by
+  unfold mkObject
+  simp only [List.map_map]
+  apply List.map_congr_left
+  intro p _
+  simp only [Function.comp]
+  unfold initSlot; split <;> (try split) <;> rfl
 
 end BacVerif.C15
